@@ -45,20 +45,61 @@ def brew_cases(ctx, rng):
                       "fmt": "parquet" if (j // 12) % 2 else "pin", "thr": thr, "train_thr": thr, "seed": j,
                       "est": ["feat", "const", "anti", "proba"][j % 4], "col": 1, "direction": "f1" if (j // 4) % 3 == 2 else None,
                       "label_enc": ["1/-1", "1/0", "bool"][(j // 24) % 3], "override": bool((j // 72) % 4 == 3),
-                      "lower_better": lower_better, "max_iter": 1 + j % 2})
+                      "lower_better": lower_better, "max_iter": 1 + j % 2, "prior": "flip" if j % 5 == 2 else None})
         if j % 8 == 7:      # a second collection
             rows2 = rows_from_shape(spec_of[: n // 2], rng, id0=1000)
             for r in rows2:
                 good = int(rng.normal(70, 8)) if (r["tgt"] and rng.random() < 0.7) else int(rng.normal(30, 8))
                 r["f"] = [(-good if lower_better else good), int(rng.integers(0, 50))]
             cases[-1]["files"].append({"rows": rows2})
+    # evaluation FDR stricter than the training FDR and stricter than 0.01 (large collections: a target only passes
+    # 0.005 behind at least 200 targets): the learned scores place a few decoys in the middle of the targets, so they accept
+    # about half of the targets at test_fdr = 0.005 while the best feature (perfect) accepted 2/3 of them during training
+    for j in range(2 if ctx.quick else 8):
+        T = 1320 + 60 * j
+        rows = []
+        for i in range(2 * T):
+            tgt = i % 2 == 0
+            k = i // 2
+            if tgt:
+                f1 = (4000 + k) if k < T // 2 else (1000 + k)
+                f2 = 6000 + k
+            else:
+                f1 = (3000 + k) if k < 8 + j % 3 else k
+                f2 = k
+            rows.append({"id": i, "spec": i + 1, "tgt": bool(tgt), "f": [int(f1), int(f2)]})
+        order = rng.permutation(len(rows))
+        rows = [rows[int(i)] for i in order]
+        cases.append({"files": [{"rows": rows}], "folds": 3, "workers": 1, "cap": None, "keyw": 2, "fmt": "pin", "thr": [1, 200],
+                      "train_thr": [1, 100], "seed": 1000 + j, "est": "feat", "col": 1, "direction": "f2", "label_enc": ["1/-1", "1/0", "bool"][j % 3],
+                      "override": False, "lower_better": False, "max_iter": 1})
     return cases
 
 
 def run_brew_case(case):
     c = copy.deepcopy(case)
+    wd = None
     try:
-        tr, info = brewrun.run_brew(c)
+        if c.get("prior") == "flip":
+            # a two-step history in one process: the same path first held a table with the same rows but the opposite labels
+            # (its analysis is not judged); nothing of it may be remembered
+            import shutil
+            import tempfile
+            wd = tempfile.mkdtemp(prefix="c07h_")
+            p = copy.deepcopy(c)
+            for fl in p["files"]:
+                for r in fl["rows"]:
+                    r["tgt"] = not r["tgt"]
+            try:
+                brewrun.run_brew(p, workdir=wd, keep=True)
+            except Exception:
+                pass
+            try:
+                tr, info = brewrun.run_brew(c, workdir=wd, keep=True)
+            finally:
+                shutil.rmtree(wd, ignore_errors=True)
+        else:
+            tr, info = brewrun.run_brew(c)
     except Exception as e:
         import traceback
         return {"harness_error": "%s: %s %s" % (type(e).__name__, e, traceback.format_exc()[-500:])}
